@@ -82,6 +82,7 @@ HMut(m)   == /\ mode = "hist" /\ nm < MaxMut
                          [] m = "setc"      -> IF DEV_SetterKeepsDistance THEN dc ELSE <<>>
                          [] m \in {"setl", "setr"} -> dc    \* the center line is untouched
                          [] m \in MergeToks -> <<>>          \* a new object
+                         [] m \in FrameToks -> dc            \* drawing reads distance / interpolate_position only
              /\ hist' = Append(hist, m) /\ nm' = nm + 1
              /\ UNCHANGED <<mode, pa, pb, s2>> /\ UNCHANGED RouteVars
 HistNext  == (\E q \in QueryToks : HQuery(q)) \/ (\E m \in MutToks : HMut(m))
